@@ -395,8 +395,23 @@ func (s *Syncer) addPeer(p *Peer) error {
 	}
 
 	s.mu.Lock()
+	defer s.mu.Unlock()
+	if p.Inbound {
+		// allowConnect checked the limit before the handshake; other
+		// connections may have completed theirs in the meantime, so the
+		// limit must be checked again in the critical section that
+		// registers the peer
+		var in int
+		for _, other := range s.peers {
+			if other.Inbound {
+				in++
+			}
+		}
+		if in >= s.config.MaxInboundPeers {
+			return errors.New("too many inbound peers")
+		}
+	}
 	s.peers[p.t.Addr] = p
-	s.mu.Unlock()
 	return nil
 }
 
